@@ -19,6 +19,11 @@ import TantivyModel.Proofs.DocSet.DisjunctionScore
 import TantivyModel.Proofs.DocSet.ScoreMoves
 import TantivyModel.Proofs.DocSet.BufferedUnionScoreDanger
 import TantivyModel.Proofs.DocSet.ScoreCompose
+import TantivyModel.Proofs.DocSet.TinySetBridge
+import TantivyModel.Proofs.DocSet.TreeScore1
+import TantivyModel.Proofs.DocSet.TreeScore2
+import TantivyModel.Proofs.DocSet.TreeScore3
+import TantivyModel.Proofs.DocSet.TreeScore4
 import TantivyModel.Model.DocSet.Tree
 /-!
 # C13 — every DocSet is one sorted sequence under any mix of advance and seek
@@ -741,6 +746,142 @@ theorem C13_tree_end_sticky (fx : Fix) (n : Nat) (t : Tree) (hden : Den n t [])
 theorem C13_tree_score_keeps_state (fx : Fix) (n : Nat) :
     ScoreOK (levelDS fx n) (LevelVW n).1 (LevelVW n).2 := (level_lawful fx n).2
 
+/-! ### the score clause on the model the driver runs (`levelDS`, `buildTree`), nesting depth 1
+
+Score counterpart of `C13_tree_program_equiv` for the tree descriptions with one scoring node over
+vector / bitset leaves (`Den 0` leaves: sorted lists of small documents). `scoreOf c`: the constant
+score of leaf `c`; `tsum cs ls x`: the sum of the scores of the leaves whose list holds `x`. Programs:
+every legal call program without `count` (and, for the union, without its own `fill_buffer`, for
+which the statement is false); the statement is made whenever the cursor is not in a danger zone. -/
+
+/-- SUM `BufferedUnionScorer` over leaves: `buildTree` succeeds and `score()` of the scorer the driver
+runs is the sum of the scores of the leaves containing the current document -/
+theorem C13_tree1_union_score (fx : Fix) (cs : List Tree) (ls : List (List Nat)) (U : List Nat)
+    (hA : All2 (Den 0) cs ls) (hU : SimpleUnion.IsUnion U ls) (prog : List Op)
+    (hl : legalProg ⟨U, none⟩ prog = true) (hnc : ∀ op ∈ prog, op ≠ Op.count) (hnf : noFill prog)
+    (hnd : (specFinal ⟨U, none⟩ prog).danger = none) :
+    ∃ s, buildTree fx 1 (.bunion true cs) = some s
+      ∧ (levelDS fx 1).doc (implFinal (levelDS fx 1) s prog) = Spec.doc (specFinal ⟨U, none⟩ prog).rest
+      ∧ ((levelDS fx 1).doc (implFinal (levelDS fx 1) s prog) < TERMINATED →
+          ((levelDS fx 1).score (implFinal (levelDS fx 1) s prog)).1
+            = tsum cs ls ((levelDS fx 1).doc (implFinal (levelDS fx 1) s prog))) :=
+  tree1_union_score fx cs ls U hA hU prog hl hnc hnf hnd
+
+/-- minimum-should-match `Disjunction` (SumCombiner) over leaves -/
+theorem C13_tree1_disjunction_score (fx : Fix) (k : Nat) (cs : List Tree) (ls : List (List Nat))
+    (L : List Nat) (hA : All2 (Den 0) cs ls) (hk : 1 ≤ k) (hL : Sorted L)
+    (hmem : ∀ x, x ∈ L ↔ k ≤ Disj.cnt x ls) (prog : List Op) (hl : legalProg ⟨L, none⟩ prog = true)
+    (hnc : ∀ op ∈ prog, op ≠ Op.count) (hnd : (specFinal ⟨L, none⟩ prog).danger = none) :
+    ∃ s, buildTree fx 1 (.disj true k cs) = some s
+      ∧ (levelDS fx 1).doc (implFinal (levelDS fx 1) s prog) = Spec.doc (specFinal ⟨L, none⟩ prog).rest
+      ∧ ((levelDS fx 1).doc (implFinal (levelDS fx 1) s prog) < TERMINATED →
+          ((levelDS fx 1).score (implFinal (levelDS fx 1) s prog)).1
+            = tsum cs ls ((levelDS fx 1).doc (implFinal (levelDS fx 1) s prog))) :=
+  tree1_disj_score fx k cs ls L hA hk hL hmem prog hl hnc hnd
+
+/-- `Intersection` over leaves: the score is the sum of the scores of all its leaves -/
+theorem C13_tree1_intersection_score (fx : Fix) (dense : Bool) (tl tr : Tree) (tos : List Tree)
+    (ll lr : List Nat) (los : List (List Nat)) (hl0 : Den 0 tl ll) (hr0 : Den 0 tr lr)
+    (ho0 : All2 (Den 0) tos los) (prog : List Op)
+    (hl : legalProg ⟨Inter.Common ll lr los, none⟩ prog = true) (hnc : ∀ op ∈ prog, op ≠ Op.count)
+    (hnd : (specFinal ⟨Inter.Common ll lr los, none⟩ prog).danger = none) :
+    ∃ s, buildTree fx 1 (.inter dense (tl :: tr :: tos)) = some s
+      ∧ (levelDS fx 1).doc (implFinal (levelDS fx 1) s prog)
+          = Spec.doc (specFinal ⟨Inter.Common ll lr los, none⟩ prog).rest
+      ∧ ((levelDS fx 1).doc (implFinal (levelDS fx 1) s prog) < TERMINATED →
+          ((levelDS fx 1).score (implFinal (levelDS fx 1) s prog)).1 = ((tl :: tr :: tos).map scoreOf).sum) :=
+  tree1_inter_score fx dense tl tr tos ll lr los hl0 hr0 ho0 prog hl hnc hnd
+
+/-- `RequiredOptionalScorer` (SumCombiner) over two leaves: required score plus the optional score on
+the optional leaf's documents -/
+theorem C13_tree1_reqopt_score (fx : Fix) (treq topt : Tree) (l lo : List Nat) (hr0 : Den 0 treq l)
+    (ho0 : Den 0 topt lo) (prog : List Op) (hl : legalProg ⟨l, none⟩ prog = true)
+    (hnc : ∀ op ∈ prog, op ≠ Op.count) (hnd : (specFinal ⟨l, none⟩ prog).danger = none) :
+    ∃ s, buildTree fx 1 (.reqopt true treq topt) = some s
+      ∧ (levelDS fx 1).doc (implFinal (levelDS fx 1) s prog) = Spec.doc (specFinal ⟨l, none⟩ prog).rest
+      ∧ ((levelDS fx 1).doc (implFinal (levelDS fx 1) s prog) < TERMINATED →
+          ((levelDS fx 1).score (implFinal (levelDS fx 1) s prog)).1
+            = scoreOf treq + (if (levelDS fx 1).doc (implFinal (levelDS fx 1) s prog) ∈ lo then scoreOf topt else 0)) :=
+  tree1_reqopt_score fx treq topt l lo hr0 ho0 prog hl hnc hnd
+
+/-- `Exclude` over leaves: the score is the underlying leaf's -/
+theorem C13_tree1_exclude_score (fx : Fix) (tu : Tree) (tes : List Tree) (lu : List Nat)
+    (les : List (List Nat)) (hu0 : Den 0 tu lu) (he0 : All2 (Den 0) tes les) (prog : List Op)
+    (hl : legalProg ⟨lu.filter (Exclude.ok les), none⟩ prog = true) (hnc : ∀ op ∈ prog, op ≠ Op.count)
+    (hnd : (specFinal ⟨lu.filter (Exclude.ok les), none⟩ prog).danger = none) :
+    ∃ s, buildTree fx 1 (.excl tu tes) = some s
+      ∧ (levelDS fx 1).doc (implFinal (levelDS fx 1) s prog)
+          = Spec.doc (specFinal ⟨lu.filter (Exclude.ok les), none⟩ prog).rest
+      ∧ ((levelDS fx 1).doc (implFinal (levelDS fx 1) s prog) < TERMINATED →
+          ((levelDS fx 1).score (implFinal (levelDS fx 1) s prog)).1 = scoreOf tu) :=
+  tree1_excl_score fx tu tes lu les hu0 he0 prog hl hnc hnd
+
+/-! ### nesting depth 2 on the driver's model: conjunction of disjunctions -/
+
+/-- erasing ghost data (any map `ψ` commuting with the methods a parent uses, `Hom`) commutes with every
+method of the intersection: the step that carries the score theorems from the ghost-paired scorer
+types to the driver's plain states, for `Intersection` parents -/
+theorem C13_intersection_erasure {σ' σ : Type} {C' : DS σ'} {C : DS σ} {ψ : σ' → σ} (h : Hom C' C ψ) (fx : Fix) :
+    Hom (Inter.ds C' fx) (Inter.ds C fx) (Inter.State.map ψ) := Inter.hom h fx
+
+/-- **Intersection of SUM unions of leaves (`+(a b …) +(c d …) …`), two levels, on the model the driver
+builds and runs.** `buildTree` at depth 2 succeeds and, after every legal call program without
+`count` / `fill_buffer`, outside danger zones, the scorer sits on the specification's document and
+`score()` is the sum over the unions of the scores of their leaves containing the document. The inner
+unions are driven by the intersection through seek / seek_danger (danger zones included). -/
+theorem C13_tree2_intersection_of_unions_score (fx : Fix) (dense : Bool) (g1 g2 : Group) (gs : List Group)
+    (h1 : GroupOK g1) (h2 : GroupOK g2) (hs : ∀ g ∈ gs, GroupOK g) (prog : List Op)
+    (hl : legalProg ⟨Inter.Common g1.2.2 g2.2.2 (gs.map (·.2.2)), none⟩ prog = true)
+    (hnc : ∀ op ∈ prog, op ≠ Op.count) (hnf : noFill prog)
+    (hnd : (specFinal ⟨Inter.Common g1.2.2 g2.2.2 (gs.map (·.2.2)), none⟩ prog).danger = none) :
+    ∃ s, buildTree fx 2 (.inter dense (.bunion true g1.1 :: .bunion true g2.1 :: gs.map (fun g => Tree.bunion true g.1))) = some s
+      ∧ (levelDS fx 2).doc (implFinal (levelDS fx 2) s prog)
+          = Spec.doc (specFinal ⟨Inter.Common g1.2.2 g2.2.2 (gs.map (·.2.2)), none⟩ prog).rest
+      ∧ ((levelDS fx 2).doc (implFinal (levelDS fx 2) s prog) < TERMINATED →
+          ((levelDS fx 2).score (implFinal (levelDS fx 2) s prog)).1
+            = ((g1 :: g2 :: gs).map (fun g => groupScore g ((levelDS fx 2).doc (implFinal (levelDS fx 2) s prog)))).sum) :=
+  tree2_inter_of_unions_score fx dense g1 g2 gs h1 h2 hs prog hl hnc hnf hnd
+
+/-- erasing ghost data commutes with every method of the required/optional scorer -/
+theorem C13_reqopt_erasure {σ' σ τ' τ : Type} {R' : DS σ'} {R : DS σ} {O' : DS τ'} {O : DS τ}
+    {φ : σ' → σ} {ψ : τ' → τ} (hφ : Hom R' R φ) (hψ : Hom O' O ψ) :
+    Hom (ReqOpt.ds R' O') (ReqOpt.ds R O) (ReqOpt.State.map2 φ ψ) := ReqOpt.hom hφ hψ
+
+/-- **`+a (b c …)`: a required leaf with an optional SUM union of leaves, two levels, on the model the
+driver builds and runs.** `score()` is the required leaf's score plus, on the documents of the union,
+the scores of the union's leaves containing the document (the optional union is moved by `score()`
+itself, through `seek`). -/
+theorem C13_tree2_reqopt_union_score (fx : Fix) (treq : Tree) (l : List Nat) (g : Group) (hr0 : Den 0 treq l)
+    (hg : GroupOK g) (prog : List Op) (hl : legalProg ⟨l, none⟩ prog = true)
+    (hnc : ∀ op ∈ prog, op ≠ Op.count) (hnf : noFill prog) (hnd : (specFinal ⟨l, none⟩ prog).danger = none) :
+    ∃ s, buildTree fx 2 (.reqopt true treq (.bunion true g.1)) = some s
+      ∧ (levelDS fx 2).doc (implFinal (levelDS fx 2) s prog) = Spec.doc (specFinal ⟨l, none⟩ prog).rest
+      ∧ ((levelDS fx 2).doc (implFinal (levelDS fx 2) s prog) < TERMINATED →
+          ((levelDS fx 2).score (implFinal (levelDS fx 2) s prog)).1
+            = scoreOf treq + (if (levelDS fx 2).doc (implFinal (levelDS fx 2) s prog) ∈ g.2.2
+                then groupScore g ((levelDS fx 2).doc (implFinal (levelDS fx 2) s prog)) else 0)) :=
+  tree2_reqopt_union_score fx treq l g hr0 hg prog hl hnc hnf hnd
+
+/-- erasing ghost data commutes with every method of the buffered union that a parent or a call program
+uses (`fill_buffer` and `count` aside): `build`, `advance` (refill / drain), `seek` (buffered and far
+branch), `seek_danger`, `fill_bitset_block`, `score` -/
+theorem C13_union_erasure {σ' σ : Type} {C' : DS σ'} {C : DS σ} {ψ : σ' → σ} (h : Hom C' C ψ) (H : Nat) (fx : Fix) :
+    Hom (BUnion.dsNF C' H fx) (BUnion.ds C H fx) (BUnion.State.map ψ) := BUnion.hom h H fx
+
+/-- **SUM union of intersections of leaves (`(+a +b …) (+c +d …) …`), two levels, on the model the driver
+builds and runs**: `score()` is the sum, over the intersections containing the document, of the scores
+of all their leaves -/
+theorem C13_tree2_union_of_intersections_score (fx : Fix) (dense : Bool) (gs : List IGroup)
+    (hs : ∀ g ∈ gs, g.ok) (U : List Nat) (hU : SimpleUnion.IsUnion U (gs.map IGroup.common)) (prog : List Op)
+    (hl : legalProg ⟨U, none⟩ prog = true) (hnc : ∀ op ∈ prog, op ≠ Op.count) (hnf : noFill prog)
+    (hnd : (specFinal ⟨U, none⟩ prog).danger = none) :
+    ∃ s, buildTree fx 2 (.bunion true (gs.map (IGroup.tree dense))) = some s
+      ∧ (levelDS fx 2).doc (implFinal (levelDS fx 2) s prog) = Spec.doc (specFinal ⟨U, none⟩ prog).rest
+      ∧ ((levelDS fx 2).doc (implFinal (levelDS fx 2) s prog) < TERMINATED →
+          ((levelDS fx 2).score (implFinal (levelDS fx 2) s prog)).1
+            = isum gs ((levelDS fx 2).doc (implFinal (levelDS fx 2) s prog))) :=
+  tree2_union_of_inters_score fx dense gs hs U hU prog hl hnc hnf hnd
+
 /-! ### open statements
 
 Proved above (no longer open): `Lawful` for Intersection (incl. the dense count), BufferedUnionScorer
@@ -754,8 +895,13 @@ The SCORE clause composes: `Scored` (what a scoring parent needs from a child) h
 leaf and is closed under SUM union, Disjunction, Intersection, Exclude and RequiredOptional
 (`C13_scored_*_closed`, packaged over every nesting as `C13_score_composes`). The inner nodes there
 carry their total score function as ghost data (`DS.withGhost`); the formal link from those scorer
-types to the driver's `levelDS` / `buildTree` (as `C13_tree_program_equiv` has for the document
-sequence) is not written.
+types to the driver's `levelDS` / `buildTree` is written for nesting depth 1 (`C13_tree1_*_score`:
+one scoring node over leaves, where no ghost data is needed) and, at depth 2, for intersections of
+SUM unions, required/optional nodes over a leaf and a SUM union, and SUM unions of intersections
+(`C13_tree2_intersection_of_unions_score`, `C13_tree2_reqopt_union_score`,
+`C13_tree2_union_of_intersections_score`, through `C13_intersection_erasure` / `C13_reqopt_erasure` /
+`C13_union_erasure`); for the other shapes (Disjunction / Exclude parents, depth >= 3) it is open (it needs "erasing the ghost data commutes with every method"
+for the other parent kinds, as proved for the intersection).
 
 Hypothesis kept: the children of an Intersection hold documents with doc + BLOCK_WINDOW ≤ TERMINATED
 (`Small`). It mirrors a precondition of the real default `fill_bitset_block(min_doc, ..)`: with
@@ -934,6 +1080,34 @@ example : let H := 64
   decide +kernel
 example := C13_score_composes
   (ScoredNode.inter {} (ScoredNode.union 64 (by decide) (by decide) {} (ScoredNode.reqopt ScoredNode.vec ScoredNode.vec)))
+example : Den 0 (.vec [1, 5] 2) [1, 5] := ⟨rfl, ⟨by decide, by decide⟩, by unfold Small; decide⟩
+example : tsum [.vec [1, 5] 2, .bits [5, 7] 8 3] [[1, 5], [5, 7]] 5 = 5 := by decide
+example : noFill [.advance, .seekDanger 7, .doc] := by
+  intro op hop
+  simp only [List.mem_cons, List.mem_nil_iff, or_false] at hop
+  rcases hop with rfl | rfl | rfl <;> exact (fun h => by cases h)
+example : (buildTree {} 1 (.reqopt true (.vec [1, 5, 9] 2) (.bits [5, 7] 8 3))).map
+      (fun s => ((levelDS {} 1).score (implFinal (levelDS {} 1) s [.advance])).1) = some 5 := by
+  decide +kernel
+example : GroupOK ([.vec [1, 5] 2, .vec [5, 7] 3], [[1, 5], [5, 7]], [1, 5, 7]) := by
+  refine ⟨All2.cons ⟨rfl, ⟨by decide, by decide⟩, by unfold Small; decide⟩
+    (All2.cons ⟨rfl, ⟨by decide, by decide⟩, by unfold Small; decide⟩ All2.nil), ⟨by decide, by decide⟩, ?_⟩
+  intro x
+  simp only [List.mem_cons, List.mem_nil_iff, or_false, exists_eq_or_imp, exists_eq_left]
+  omega
+example : (buildTree {} 2 (.inter false [.bunion true [.vec [1, 5] 2, .vec [5, 7] 3], .bunion true [.vec [5, 9] 4, .bits [7] 8 1]])).map
+      (fun s => ((levelDS {} 2).doc s, ((levelDS {} 2).score s).1,
+        ((levelDS {} 2).score (implFinal (levelDS {} 2) s [.advance])).1)) = some (5, 9, 4) := by
+  decide +kernel
+example : (buildTree {} 2 (.reqopt true (.vec [1, 5, 9] 2) (.bunion true [.vec [5, 7] 3, .bits [9] 16 4]))).map
+      (fun s => (((levelDS {} 2).score s).1, ((levelDS {} 2).score (implFinal (levelDS {} 2) s [.advance])).1,
+        ((levelDS {} 2).score (implFinal (levelDS {} 2) s [.seek 9])).1)) = some (2, 5, 6) := by
+  decide +kernel
+example : (buildTree {} 2 (.bunion true [.inter false [.vec [1, 5, 9] 2, .vec [5, 9] 3], .inter false [.vec [5, 7] 1, .bits [5, 7] 8 4]])).map
+      (fun s => ((levelDS {} 2).doc s, ((levelDS {} 2).score s).1,
+        ((levelDS {} 2).score (implFinal (levelDS {} 2) s [.advance])).1,
+        ((levelDS {} 2).score (implFinal (levelDS {} 2) s [.seekDanger 9])).1)) = some (5, 10, 5, 5) := by
+  decide +kernel
 example : Exclude.ok [[5, 7], [9]] 1 = true ∧ Exclude.ok [[5, 7], [9]] 9 = false := by decide
 example : Vec.V (Vec.init [1, 5, 9] 2) [1, 5, 9] := ⟨rfl, by
   refine ⟨by decide, ?_⟩
@@ -972,6 +1146,66 @@ theorem C13_src_tinyset_pop_lowest (s : BitVec 64) :
 
 example : ∃ i, mem (0x50#64) i = true := ⟨4, by decide⟩
 example : tinyset_pop_lowest 0x50#64 = (some 4#32, 0x40#64) := by decide +kernel
+
+/-! #### the bucket arrays of the models are the translated `TinySet` words
+
+`Bridge.elems s`: the sorted list of the members of a word; `Bridge.window bs`: the sorted list of the
+set bits `64 * bucket + bit` of a bucket array — the representation `BUnion.State.window` and
+`BitSet.State.all` use. The list operations of the models are what the source functions compute. -/
+open TantivyModel.DocSet.Bridge
+
+/-- `TinySet::pop_lowest` pops the head of the member list of the word -/
+theorem C13_src_tinyset_pop_is_head (s : BitVec 64) :
+    (elems s = [] → tinyset_pop_lowest s = (none, s))
+    ∧ (elems s ≠ [] → ∃ l s', tinyset_pop_lowest s = (some l, s') ∧ elems s = l.toNat :: elems s') :=
+  elems_pop s
+
+/-- refill: `self.bitsets[delta / 64].insert_mut(delta % 64)` is the model's `insertDelta` on the window -/
+theorem C13_src_window_insert (bs : List (BitVec 64)) (k : Nat) (e : BitVec 32) (hk : k < bs.length)
+    (he : e.toNat < 64) :
+    window (bs.set k (tinyset_insert (bs.getD k 0#64) e)) = BUnion.insertDelta (64 * k + e.toNat) (window bs) :=
+  window_insert bs k e hk he
+
+/-- advance_buffered / fill_buffer: `self.bitsets[bucket].pop_lowest()` is the model's `popBucket` -/
+theorem C13_src_window_pop (bs : List (BitVec 64)) (b : Nat) (hb : b < bs.length) :
+    BUnion.popBucket b (window bs) =
+      match tinyset_pop_lowest (bs.getD b 0#64) with
+      | (none, _) => none
+      | (some l, s') => some (64 * b + l.toNat, window (bs.set b s')) :=
+  window_pop bs b hb
+
+/-- `BitSet::tinyset(bucket)`: the model's `bucketOf` is the bucket's word -/
+theorem C13_src_bitset_bucket (ws : List (BitVec 64)) (b : Nat) :
+    BitSet.bucketOf (window ws) b = (elems (ws.getD b 0#64)).map (64 * b + ·) :=
+  bucketOf_window ws b
+
+/-- `BitSetDocSet::seek` into a later bucket:
+`docs.tinyset(bucket).intersect(TinySet::range_greater_or_equal(target % 64))` is the model's
+"members of the target's bucket from the target on" -/
+theorem C13_src_bitset_seek_mask (ws : List (BitVec 64)) (t : Nat) (lo : BitVec 32) (hlo : lo.toNat = t % 64) :
+    (BitSet.bucketOf (window ws) (t / 64)).filter (fun d => decide (d ≥ t))
+      = (elems (tinyset_intersect (ws.getD (t / 64) 0#64) (tinyset_range_greater_or_equal lo))).map
+          (64 * (t / 64) + ·) :=
+  seek_mask ws t lo hlo
+
+/-- **BitSetDocSet over an arbitrary array of `TinySet` words**: no sortedness hypothesis is left — the
+member list of a word array is sorted by construction — and every legal call program observes the
+cursor over exactly the set bits of the words -/
+theorem C13_src_bitset_words_program_equiv (fx : Fix) (ws : List (BitVec 64)) (score : Nat)
+    (hlen : 64 * ws.length ≤ TERMINATED) (prog : List Op)
+    (hlegal : legalProg ⟨window ws, none⟩ prog = true) :
+    implRun (BitSet.ds fx) (BitSet.init (window ws) (64 * ws.length) score) prog
+      = specRun ⟨window ws, none⟩ prog := by
+  have hb : ∀ d ∈ window ws, d < 64 * ws.length := by
+    intro d hd
+    have := ((mem_window ws d).mp hd).1
+    omega
+  exact C13_bitset_program_equiv fx (window ws) (64 * ws.length) score
+    ⟨window_sorted ws, fun x hx => by have := hb x hx; omega⟩ hb prog hlegal
+
+example : window [0x50#64, 0x3#64] = [4, 6, 64, 65] := by decide +kernel
+example : BUnion.popBucket 1 (window [0x50#64, 0x3#64]) = some (64, window [0x50#64, 0x2#64]) := by
+  decide +kernel
 end TinySetSrc
 
 end TantivyModel.C13
